@@ -20,7 +20,7 @@ ASSUMPTIONS = ['no stored logit is exactly 0.0 (0.0 is the sparse format\'s "pru
                'the end-to-end leg uses transcriptions with plain single spaces, geometry inside the page; both layouts go through the same decoder and exporter']
 N = {'quick': 500, 'thorough': 30000}
 CLASSES = ['roundtrip', 'roundtrip_bytes', 'subset', 'superset', 'legacy', 'missing_component', 'dense', 'rebuild', 'rebuild', 'empty_page']
-REQUIRED = ['roundtrip_lines', 'untouched_checked', 'missing_reported', 'dense_checked', 'rebuild_pages', 'rebuild_lines_decoded', 'rebuild_alto_compared', 'legacy_checked', 'reloads']
+REQUIRED = ['roundtrip_lines', 'untouched_checked', 'missing_reported', 'dense_checked', 'rebuild_pages', 'rebuild_lines_decoded', 'rebuild_alto_compared', 'legacy_checked', 'reloads', 'parse_folder_rebuilds']
 CHARSETS = [list('abcdefgh '), list('abc '), ['a', 'b', 'é', 'ạ̈', 'שׁ', '\U0001F600', ' '], [chr(0x61 + k) for k in range(26)] + [' ', '.', ',']]
 
 
@@ -279,3 +279,43 @@ def check_rebuild(a, case, mon, ctx):
     wb = alto_words(xb) if not xb.startswith('EXC') else xb
     if wa != wb:
         mon.violation('rebuilt-layout-exports-same-alto-text', {'original': wa, 'rebuilt': wb})
+
+
+def extra(mon, ctx):
+    """the batch script itself: ALTO produced from the saved PAGE XML + logits (no OCR) must carry the same text as the ALTO of the original run"""
+    if ctx.shard != 0:
+        return
+    import shutil
+    from vf import pipeline
+    PF = pipeline.load_parse_folder(ctx.repo)
+    n = 1 if ctx.tier == 'quick' else 6
+    for k in range(n):
+        root = os.path.join(ctx.tmpdir, 'pf%d' % k)
+        ids = ['a', 'b.v2', 'c']
+        pipeline.make_batch(root, ids, seed=ctx.seed * 10 + k, n_lines=3)
+        r1 = pipeline.run_main(PF, pipeline.argv_for(root, root + '/out', ['xml', 'logits', 'alto'], skip=False))
+        with open(root + '/config2.ini', 'w') as f:
+            f.write('[PAGE_PARSER]\nRUN_LAYOUT_PARSER = no\nRUN_LINE_CROPPER = no\nRUN_OCR = no\nRUN_DECODER = no\n')
+        argv = ['parse_folder.py', '-c', root + '/config2.ini', '-x', root + '/out/xml', '--input-logit-path', root + '/out/logits', '--device', 'cpu',
+                '--output-alto-path', root + '/out2/alto', '--output-xml-path', root + '/out2/xml']
+        r2 = pipeline.run_main(PF, argv)
+        mon.count('extra_evaluations')
+        mon.count('parse_folder_rebuilds')
+        mon.cur_desc = {'leg': 'parse_folder: ALTO from saved PAGE XML + logits', 'folder_seed': ctx.seed * 10 + k}
+        if r1 != 'ok' or r2 != 'ok':
+            mon.violation('harness:exception', {'note': 'parse_folder runs did not finish', 'statuses': [r1, r2]})
+            continue
+        for pid in ids:
+            try:
+                wa = alto_words(open('%s/out/alto/%s.xml' % (root, pid), encoding='utf-8').read())
+                wb = alto_words(open('%s/out2/alto/%s.xml' % (root, pid), encoding='utf-8').read())
+            except OSError as e:
+                mon.violation('rebuilt-layout-exports-same-alto-text', {'page': pid, 'exception': repr(e)[:200]})
+                continue
+            if wa != wb or not wa:
+                mon.violation('rebuilt-layout-exports-same-alto-text', {'page': pid, 'via': 'parse_folder', 'original': wa, 'rebuilt': wb})
+            wca = re.findall(r'\bWC="([^"]*)"', open('%s/out/alto/%s.xml' % (root, pid), encoding='utf-8').read())
+            wcb = re.findall(r'\bWC="([^"]*)"', open('%s/out2/alto/%s.xml' % (root, pid), encoding='utf-8').read())
+            if wca != wcb:
+                mon.violation('rebuilt-layout-exports-same-alto-text', {'page': pid, 'via': 'parse_folder', 'what': 'word confidences', 'original': wca[:8], 'rebuilt': wcb[:8]})
+        shutil.rmtree(root, ignore_errors=True)
